@@ -929,10 +929,26 @@ func checkErrorsReturned(p *Prog, r *Report, rule string, fn *ssa.Function) {
 		}
 		// tail call: the whole tuple is returned
 		tail := false
-		if refs := call.Referrers(); refs != nil {
+		if refs := call.Referrers(); refs != nil && len(*refs) > 0 {
+			tail = true
 			for _, ref := range *refs {
-				if _, isRet := ref.(*ssa.Return); isRet {
-					tail = true
+				switch x := ref.(type) {
+				case *ssa.Return:
+					if x.Block() != call.Block() {
+						tail = false
+					}
+				case *ssa.Extract:
+					if x.Referrers() == nil || len(*x.Referrers()) == 0 {
+						tail = false
+					}
+					for _, rr := range *x.Referrers() {
+						if ret, isRet := rr.(*ssa.Return); !isRet || ret.Block() != call.Block() {
+							tail = false
+						}
+					}
+				case *ssa.DebugRef:
+				default:
+					tail = false
 				}
 			}
 		}
@@ -946,32 +962,56 @@ func checkErrorsReturned(p *Prog, r *Report, rule string, fn *ssa.Function) {
 		}
 		// uses of the error
 		handled, why := false, "the error of "+shortCallee(name)+" is never tested"
+		nilTests, badTest := 0, false
 		for _, ref := range *errv.Referrers() {
 			switch x := ref.(type) {
 			case *ssa.Return:
 				handled = true
 			case *ssa.BinOp:
 				if (x.Op == token.NEQ || x.Op == token.EQL) && (isNilConst(x.X) || isNilConst(x.Y)) {
-					// find the If
-					for _, rr := range *x.Referrers() {
-						iff, ok := rr.(*ssa.If)
-						if !ok {
+					// every branch on this comparison: the non-nil side must return a non-nil error on all its paths
+					var uses []ssa.Instruction
+					uses = append(uses, *x.Referrers()...)
+					for _, rr := range uses {
+						var blk *ssa.BasicBlock
+						var nonNil, cont *ssa.BasicBlock
+						switch y := rr.(type) {
+						case *ssa.If:
+							blk = y.Block()
+							nonNil, cont = blk.Succs[0], blk.Succs[1]
+						case *ssa.Phi:
+							// `err != nil && cond`: the conjunction as a value; find the If on the phi
+							continue
+						default:
 							continue
 						}
-						blk := iff.Block()
-						nonNil := blk.Succs[0]
-						cont := blk.Succs[1]
 						if x.Op == token.EQL {
 							nonNil, cont = cont, nonNil
 						}
-						// the non-nil edge must return (not rejoin the continuation) with a non-nil error
-						if reachable(nonNil, cont) && nonNil != cont {
-							// allowed only if it is a loop back edge (continue) — not in evaluators
-							why = "after `err != nil` control continues into the code that uses the value (the error is not returned)"
+						nilTests++
+						if nonNil == cont {
 							continue
 						}
-						retOK := true
-						sawRet := false
+						if reachable(nonNil, cont) {
+							// idiom: record the error and `continue` the enclosing loop (diagnostics collection)
+							if loop := innermostLoop(loopsOf(fn), blk); loop != nil && loop.Body[nonNil] {
+								avoid := map[*ssa.BasicBlock]bool{loop.Header: true}
+								recorded := false
+								for _, in := range nonNil.Instrs {
+									if c, ok := in.(*ssa.Call); ok && c.Call.IsInvoke() && c.Call.Value == errv && c.Call.Method.Name() == "Error" {
+										recorded = true
+									}
+								}
+								if recorded && !reachableAvoiding(nonNil, cont, avoid) {
+									handled = true
+									continue
+								}
+							}
+							badTest = true
+							why = "after `err != nil` control can continue into the code that uses the value (the error is not returned on every such path)"
+							continue
+						}
+						retOK, sawRet := true, false
 						seen := map[*ssa.BasicBlock]bool{}
 						var walk func(b *ssa.BasicBlock)
 						walk = func(b *ssa.BasicBlock) {
@@ -991,9 +1031,32 @@ func checkErrorsReturned(p *Prog, r *Report, rule string, fn *ssa.Function) {
 							}
 						}
 						walk(nonNil)
+						if !retOK && isRangeFuncYield(fn) {
+							// in a range-over-func body `return x, err` is: store into the enclosing function's result
+							// cells, then stop the iteration (return false)
+							stored, stops := false, true
+							for b := range seen {
+								for _, in := range b.Instrs {
+									if st, ok := in.(*ssa.Store); ok && st.Val == errv {
+										if _, isFV := st.Addr.(*ssa.FreeVar); isFV {
+											stored = true
+										}
+									}
+								}
+								if ret, ok := lastInstr(b).(*ssa.Return); ok {
+									if cb, isC := constBool(ret.Results[0]); !isC || cb {
+										stops = false
+									}
+								}
+							}
+							if stored && stops {
+								retOK = true
+							}
+						}
 						if sawRet && retOK {
 							handled = true
 						} else {
+							badTest = true
 							why = "the `err != nil` edge does not return a non-nil error"
 						}
 					}
@@ -1005,6 +1068,10 @@ func checkErrorsReturned(p *Prog, r *Report, rule string, fn *ssa.Function) {
 				handled = true
 			}
 		}
+		if badTest {
+			handled = false
+		}
+		_ = nilTests
 		// the paired value must not be used where the error is known non-nil
 		if handled && n > 1 {
 			if val := extractOf(call, 0); val != nil && val.Referrers() != nil {
@@ -1043,6 +1110,27 @@ func usesThroughSpill(v ssa.Value) []ssa.Instruction {
 	}
 	for _, u := range *v.Referrers() {
 		if st, ok := u.(*ssa.Store); ok && st.Val == v {
+			// assignment into a field of a local struct (res.Request.Principal, err = f()): a spill as well
+			if base, _, isField := topField(st.Addr); isField {
+				if la, isLocal := base.(*ssa.Alloc); isLocal {
+					// the value is consumed where the local struct (or that field) is read
+					for _, r := range *la.Referrers() {
+						switch x := r.(type) {
+						case *ssa.UnOp:
+							out = append(out, x)
+						case *ssa.FieldAddr:
+							if x.Field == st.Addr.(*ssa.FieldAddr).Field || true {
+								for _, rr := range *x.Referrers() {
+									if ld, isLd := rr.(*ssa.UnOp); isLd {
+										out = append(out, ld)
+									}
+								}
+							}
+						}
+					}
+					continue
+				}
+			}
 			if a, ok := st.Addr.(*ssa.Alloc); ok {
 				for _, r := range *a.Referrers() {
 					switch x := r.(type) {
@@ -1204,7 +1292,88 @@ func (c *evalCtx) arithmetic() {
 		})
 	}
 	r.Check(nHelpers >= 4, rule, "eval:checked-helpers", "-", itoa(nHelpers)+" checked helpers", "expected the four checked helpers (add, sub, mul, neg)")
+	// inside a checked helper: a `result, true` return of the raw operation must sit under a test that
+	// inspects that result (post-hoc overflow test), or — for negation — under operand != MinInt64
+	for _, fn := range c.evalScope() {
+		if !isChecked(fn) {
+			continue
+		}
+		q := fnQual(fn)
+		for _, b := range fn.Blocks {
+			ret, ok := lastInstr(b).(*ssa.Return)
+			if !ok {
+				continue
+			}
+			okc, isC := constBool(retVal(ret, 1))
+			if !isC || !okc {
+				continue
+			}
+			v := stripConv(retVal(ret, 0))
+			var op ssa.Value
+			switch x := v.(type) {
+			case *ssa.BinOp:
+				if x.Op == token.ADD || x.Op == token.SUB || x.Op == token.MUL {
+					op = x
+				}
+			case *ssa.UnOp:
+				if x.Op == token.SUB {
+					op = x
+				}
+			}
+			if op == nil {
+				r.OK(rule, q+":ok-return", p.pos(ret.Pos()), "returns a constant / operand with ok=true")
+				continue
+			}
+			justified := false
+			for _, g := range guardsAt(b) {
+				fg := flattenGuard(g)
+				if dependsOnValue(fg.Cond, op) {
+					justified = true
+				}
+				if u, isNeg := op.(*ssa.UnOp); isNeg {
+					if bo, ok := fg.Cond.(*ssa.BinOp); ok && (bo.Op == token.EQL || bo.Op == token.NEQ) {
+						k, isK := constInt(bo.Y)
+						eq := fg.Pol
+						if bo.Op == token.NEQ {
+							eq = !eq
+						}
+						if isK && k == -9223372036854775808 && stripConv(bo.X) == stripConv(u.X) && !eq {
+							justified = true
+						}
+					}
+				}
+			}
+			r.Check(justified, rule, q+":ok-return", p.pos(ret.Pos()), "the unchecked result is returned as ok only under a test of that result (or operand != MinInt64)",
+				"a checked helper returns the raw result of the operation with ok=true on a path that never tested that result for overflow (a fast path that skips the overflow test)")
+		}
+	}
 	r.Floor("R1.7-floor", 2)
+}
+
+// dependsOnValue: cond is computed (transitively) from v.
+func dependsOnValue(cond ssa.Value, v ssa.Value) bool {
+	seen := map[ssa.Value]bool{}
+	var rec func(x ssa.Value) bool
+	rec = func(x ssa.Value) bool {
+		if x == v {
+			return true
+		}
+		if seen[x] {
+			return false
+		}
+		seen[x] = true
+		in, ok := x.(ssa.Instruction)
+		if !ok {
+			return false
+		}
+		for _, op := range in.Operands(nil) {
+			if *op != nil && rec(*op) {
+				return true
+			}
+		}
+		return false
+	}
+	return rec(cond)
 }
 
 // remBounded: x is (a % c1) op c2 with small constants, so the result cannot overflow.
